@@ -47,7 +47,7 @@ def _enc_event(ev):
         "votes": [_vote(v) for v in (ev["votes"] or [])],
         "vars": _norm_vars(ev["vars"]),
         # error messages (policy 'print') are counted per call, their wording is not compared
-        "printed": [txt(s) for s in ev["printed"] if not runner.ERRLINE.match(s)],
+        "printed": [txt(s) for s in ev["printed"]],
         "nerrors": int(ev.get("nerrors", 0)),
         "errcalls": int(ev.get("errcalls", 0)),
         "errlines": [int(x) for x in ev.get("errlines", [])],
@@ -143,9 +143,9 @@ def run_case(case, method="collect"):
             "valid": bool(p.is_valid),
             "match_count": p.match_count,
             "scan_count": p.scan_count,
-            "printed": [txt(s) for s in cap.lines if not runner.ERRLINE.match(s)], "nerrors": len(p.errors) if p.errors else 0,
-            "checkStdout": not raised and not any("\n" in x for x in cap.lines),
-            "stdout": [txt(x) for x in sbuf.getvalue().split("\n")[:-1] if not runner.ERRLINE.match(x)] if not raised else [],
+            "printed": [txt(s) for s in cap.lines], "nerrors": len(p.errors) if p.errors else 0,
+            "checkStdout": not raised and not any("\n" in x for x in cap.lines) and cap.errmsgs == 0,
+            "stdout": [txt(x) for x in sbuf.getvalue().split("\n")[:-1]] if not raised else [],
             "checkLines": lines is not None and not raised,
             "lines": [[_cell(c) for c in l] for l in (lines or [])] if not raised else [],
             "headers": [txt(h) for h in (p.headers or [])] if p.scanner is not None else [],
